@@ -112,6 +112,24 @@ Section Cookie.
     intros Hx%bytes_eqb_eq. exists a, b, c4, d. auto.
   Qed.
 
+  (* what Validate checks, exactly (no premise): the cookie is a 32-byte tag followed by a 4-byte
+     timestamp, the tag is H of (mac | svlan | cvlan | timestamp bytes) and the timestamp is young enough *)
+  Lemma validate_accepts_iff ttl now c mac sv cv : validate H ttl now c (mac, sv, cv) = true <->
+    exists sig a b c4 d, c = sig ++ [a; b; c4; d] /\ length sig = 32%nat /\
+      sig = H (enc_val mac sv cv [a; b; c4; d]) /\ (now - Z.of_N (be32 a b c4 d) * ns_per_s <= ttl)%Z.
+  Proof.
+    split.
+    - intros Hv. pose proof (validate_length _ _ _ _ Hv) as Hl.
+      destruct (validate_true_inv _ _ _ _ _ _ Hv) as (a & b & c4 & d & Hs & Hf & Hsig).
+      exists (firstn 32 c), a, b, c4, d. repeat split; auto.
+      + rewrite <- Hs. symmetry. apply firstn_skipn.
+      + rewrite firstn_length. lia.
+    - intros (sig & a & b & c4 & d & -> & Hl & Hsig & Hf). rewrite validate_split by exact Hl.
+      apply andb_true_iff. split.
+      + apply negb_true_iff, Z.ltb_ge. exact Hf.
+      + apply bytes_eqb_eq. exact Hsig.
+  Qed.
+
   Lemma validate_expired ttl now c mac sv cv a b c4 d : skipn 32 c = [a; b; c4; d] ->
     (ttl < now - Z.of_N (be32 a b c4 d) * ns_per_s)%Z -> validate H ttl now c (mac, sv, cv) = false.
   Proof.
@@ -602,12 +620,14 @@ Proof. vm_compute. reflexivity. Qed.
 (* a PADS is sent / a session created only for a cookie this BNG issued for the same tuple
    within its lifetime (under the unforgeability premise on the HMAC) *)
 Lemma admission v e s t p s' sid uid issued :
-  (forall c d, firstn 32 c = e_H e d -> In d (map enc_issue issued)) ->
+  (* H_mac_unforgeable, for the one tag this PADR presents: if the first 32 bytes of its AC-Cookie are
+     H of some message, that message is one Generate has MACed *)
+  (forall tg d, parse_tags p = Ok tg -> firstn 32 (t_cookie tg) = e_H e d -> In d (map enc_issue issued)) ->
   Forall wf_issue issued -> wf_tuple t ->
   step v e s (PADR t p) = Some (s', OPads sid uid) ->
   exists ts, In (t, ts) issued /\ (e_now_ns e - Z.of_N ts * ns_per_s <= e_ttl e)%Z.
 Proof.
-  intros Hunf Hwf Hwt Hs. apply padr_needs_cookie in Hs as (tg & _ & Hv & _).
+  intros Hunf Hwf Hwt Hs. apply padr_needs_cookie in Hs as (tg & Hp & Hv & _).
   eapply cookie_sound in Hv; eauto. destruct Hv as (ts & Hin & Hfresh & _). eauto.
 Qed.
 
@@ -715,3 +735,32 @@ Example history_independence_nonvacuous :
                                 CVal 1061500000000 c tA; CSetTTL 0; CVal 1000500000000 c tA]) =
   [CCookie c; CVerdict true; CVerdict true; CVerdict false; CNone; CVerdict false].
 Proof. vm_compute. reflexivity. Qed.
+
+(* admission is not vacuous: with oneH the premise holds for the presented PADR (and only because the
+   one message whose tag it carries was issued), the PADR is answered, and the conclusion names the issue *)
+Definition envOne : env :=
+  {| e_H := oneH; e_ttl := 60000000000; e_now_s := 1000; e_now_ns := 1000500000000; e_grp := fun _ => true |}.
+Definition padrOne : bytes := add_tag TagACCookie (generate oneH 1000 tA).
+
+Lemma admission_nonvacuous :
+  (forall tg d, parse_tags padrOne = Ok tg -> firstn 32 (t_cookie tg) = oneH d -> In d (map enc_issue [(tA, 1000)])) /\
+  Forall wf_issue [(tA, 1000)] /\ wf_tuple tA /\
+  (exists s', step Repaired envOne st0 (PADR tA padrOne) = Some (s', OPads 1 0)) /\
+  (* the premise is not "everything is issued": other messages have a different tag *)
+  oneH (enc_issue (tB, 1000)) <> firstn 32 (generate oneH 1000 tA) /\
+  (* and the same PADR from another tuple is refused *)
+  (exists s', step Repaired envOne st0 (PADR tB padrOne) = Some (s', ONone)).
+Proof.
+  split.
+  - intros tg d Hp Hd.
+    assert (Ht : parse_tags padrOne = Ok {| t_cookie := generate oneH 1000 tA; t_hostuniq := []; t_maxpayload := 0; t_nraw := 1 |})
+      by (vm_compute; reflexivity).
+    rewrite Ht in Hp. inversion Hp; subst tg. simpl t_cookie in Hd.
+    change (firstn 32 (generate oneH 1000 tA)) with (repeat 1 32) in Hd.
+    unfold oneH in Hd. destruct (bytes_eqb d _) eqn:E.
+    + apply bytes_eqb_eq in E. left. symmetry. exact E.
+    + discriminate Hd.
+  - split; [repeat constructor; simpl; unfold two32; lia|]. split; [simpl; lia|].
+    split; [eexists; vm_compute; reflexivity|]. split; [vm_compute; discriminate|].
+    eexists; vm_compute; reflexivity.
+Qed.
